@@ -41,6 +41,7 @@ import (
 	"github.com/oxia-db/oxia/server/kv"
 
 	"verif/harness/internal/hx"
+	"verif/harness/internal/kvsafe"
 )
 
 func init() {
@@ -559,7 +560,7 @@ var c16EnvCounter int
 func c16SubCase(o *hx.Out, shard int64, prefix string, tag string, ntKey string, body func(s *subEnv)) {
 	c16EnvCounter++
 	s := &subEnv{o: o, tag: tag, prefix: prefix, commits: make(chan error, 64), wDone: make(chan writeResult, 2), sDone: make(chan error, 2)}
-	inner, err := kv.NewPebbleKVFactory(&kv.FactoryOptions{DataDir: "/nonexistent-c16", CacheSizeMB: 1, InMemory: true})
+	inner, err := kvsafe.New(&kv.FactoryOptions{DataDir: "/nonexistent-c16", CacheSizeMB: 1, InMemory: true})
 	hx.Must(err)
 	s.factory = &c16Factory{Factory: inner, s: s}
 	s.db, err = kv.NewDB(fmt.Sprintf("c16ns%d", c16EnvCounter), shard, s.factory, time.Hour, &oxtime.MockedClock{})
